@@ -125,7 +125,6 @@ Definition range_class (k : c10case) : N :=
   else if negb (shallow (k_cfg k)) && negb (deltas_ok w32 (s_time s1) (s_time s2)) then 1
   else if negb ((s_q s1 <=? s_q s2) && (s_q s2 - s_q s1 <? w16) && (s_q s2 <? w64)) then 2
   else if negb ((s_m s1 <=? s_m s2) && (s_m s2 - s_m s1 <? w8) && (s_m s2 <? w32)) then 3
-  else if k_hello k && negb (s_m s1 =? 0) then 4
   else 0.
 
 Definition violations (k : c10case) : list N :=
